@@ -29,6 +29,13 @@ package safehtml
 //@     invariant forall(k, 0, i, mask[str[k]])
 //@     decreases n - i
 
+//@ func StyleFromConstant(style stringConstant) (r Style)
+//@   serves C16
+//@   ensures same: sameview(r.str, style)
+//@   ensures noangle: forall(k, 0, len(r.str), r.str[k] != '<' && r.str[k] != '>')
+//@   ensures terminated: len(r.str) > 0 && r.str[len(r.str) - 1] == ';'
+//@   ensures declaration: exists(k, 0, len(r.str), r.str[k] == ':')
+
 //@ func IdentifierFromConstant(value stringConstant) (r Identifier)
 //@   serves C18
 //@   option uses C18.value_is_identifier
